@@ -107,8 +107,19 @@ class World:
 
         self.key = HSpec(self.IR)
 
+        self.in_changed = 0
+
         def wrap(base):
             class L(base):
+                def changed(self, originally_changed):
+                    # reads of base._generation made from inside changed()
+                    # are call-out E2, the comparison read of _verify is E
+                    w.in_changed += 1
+                    try:
+                        return super().changed(originally_changed)
+                    finally:
+                        w.in_changed -= 1
+
                 def _uncached_lookup(self, required, provided, name=''):
                     return w.uncached(
                         super()._uncached_lookup, required, provided, name)
@@ -129,7 +140,7 @@ class World:
 
                 @property
                 def _generation(self):
-                    w.callout('E')
+                    w.callout('E2' if w.in_changed else 'E')
                     return self._gen
 
                 @_generation.setter
@@ -157,6 +168,10 @@ class World:
                 return w.key
         type(self.obj).__providedBy__ = PB()
         self.mutate()
+        if verifying:
+            # start with a snapshot of the generations that is up to date
+            # (the model's initial state; "start_stale" cases mutate again)
+            self.reg._v_lookup.changed(None)
 
     # -- data
     def mutate(self):
@@ -197,7 +212,8 @@ class World:
         if act == 'none':
             return
         inner = None
-        if f.top and point in ('B', 'C1', 'C3', 'D', 'E') and 'mutate' in act:
+        if f.top and point in ('B', 'C1', 'C3', 'D', 'E') and 'mutate' in act \
+                and not self.in_changed:
             inner = self.find_container(point)
         if act == 'raise':
             raise ForeignError(point)
@@ -307,6 +323,9 @@ def run_schedule(case):
     ctx = {'entry': case['entry'], 'verifying': case['verifying'],
            'plan': {k: v for k, v in case['plan'].items() if v != 'none'}}
     w = World(case['entry'], case['verifying'])
+    if case.get('start_stale'):
+        w.mutate()      # completed before the call: the generations moved
+        ctx['start_stale'] = True
     evaluations += 1
     kind, ans = w.call(case['plan'])
     exp = case['expect']
